@@ -369,40 +369,66 @@ func ruleUnterminatedObservable(c *Ctx) {
 	}
 	illegal := tc.byName["ILLEGAL"]
 	n := 0
-	for _, cx := range lf.contextsOf(lf.base) {
-		allInstrs(lf.base, func(_ *ssa.BasicBlock, _ int, in ssa.Instruction) {
-			call, ok := in.(*ssa.Call)
-			if !ok || !namedIs(call.Type(), "token", "Token") || len(call.Call.Args) < 3 {
-				return
+	// every way the dispatcher returns a token whose text came from a delimited scanner (walk per first byte,
+	// lexpaths.go): the current byte at the moment the token is built tells which exit the scanner took
+	outs, probs := c.lexOutcomes()
+	for _, p := range probs {
+		c.unres("dispatcher paths", lf.base.Pos(), "%s", p)
+	}
+	isSlice := func(f *ssa.Function) bool {
+		hit := false
+		allInstrs(f, func(_ *ssa.BasicBlock, _ int, in ssa.Instruction) {
+			if sl, ok := in.(*ssa.Slice); ok {
+				if _, ok := isFieldLoad(sl.X, la.input); ok {
+					hit = true
+				}
 			}
-			// literal produced by a delimited scanner: a lexer method returning string that advances and does not slice the input
-			lit := resolve(call.Call.Args[2])
-			src, ok := lit.(*ssa.Call)
-			if !ok {
-				return
-			}
-			sc := src.Call.StaticCallee()
-			if sc == nil || sc.Pkg != lf.base.Pkg || !lf.mayAdvance(sc) || isSliceScannerCall(src, la) {
-				return
-			}
-			tt, isConst := constInt64(unwrap(call.Call.Args[1]))
-			n++
-			name := "<computed>"
-			if isConst {
-				name = tc.name(tt)
-			}
-			key := fmt.Sprintf("%s: %s token from %s #%d", fnName(lf.base), name, sc.Name(), n)
-			st := cx.before[call]
-			if st == nil || !st.live {
-				c.unres(key, call.Pos(), "construction site not reached by the analysis")
-				return
-			}
-			if isConst && tt == illegal {
-				c.ok(key, call.Pos(), "the unterminated case is reported as an ILLEGAL token")
-				return
-			}
-			c.check(!st.cur.has(0), key, call.Pos(), fmt.Sprintf("built only when the scanner stopped on the closing delimiter (current byte %s)", st.cur), fmt.Sprintf("the token is built although the scanner may have stopped at end of input (current byte %s): the end-of-input exit and the closing-delimiter exit of %s are indistinguishable downstream, so a literal truncated by the end of the file is accepted silently", st.cur, sc.Name()))
 		})
+		return hit
+	}
+	type acc struct {
+		cur  bset
+		pos  token.Pos
+		ill  bool
+		name string
+		sc   string
+	}
+	byKey := map[string]*acc{}
+	var order []string
+	for _, o := range outs {
+		if o.scanner == nil || isSlice(o.scanner) || !o.litScan {
+			continue
+		}
+		name := "<computed>"
+		if o.typOK {
+			name = tc.name(o.typ)
+		}
+		key := fmt.Sprintf("%s: %s token from %s", fnName(lf.base), name, o.scanner.Name())
+		a := byKey[key]
+		if a == nil {
+			a = &acc{name: name, sc: o.scanner.Name(), ill: o.typOK && o.typ == illegal, pos: lf.base.Pos()}
+			byKey[key] = a
+			order = append(order, key)
+		}
+		if o.builder != nil {
+			a.pos = o.builder.Pos()
+		}
+		if o.site != nil {
+			a.pos = o.site.Pos()
+		}
+		a.cur = a.cur.union(o.curAtBuild)
+		if o.builder == nil {
+			a.cur = allBytes
+		}
+	}
+	for _, key := range order {
+		a := byKey[key]
+		n++
+		if a.ill {
+			c.ok(key, a.pos, "the unterminated case is reported as an ILLEGAL token")
+			continue
+		}
+		c.check(!a.cur.has(0), key, a.pos, fmt.Sprintf("built only when the scanner stopped on the closing delimiter (current byte %s)", a.cur), fmt.Sprintf("the token is built although the scanner may have stopped at end of input (current byte %s): the end-of-input exit and the closing-delimiter exit of %s are indistinguishable downstream, so a literal truncated by the end of the file is accepted silently", a.cur, a.sc))
 	}
 	if n == 0 {
 		c.unres("delimited literal tokens", lf.base.Pos(), "no token built from a delimited scanner found")
